@@ -1,5 +1,6 @@
 #include "uci.h"
 
+#include <algorithm>
 #include <thread>
 
 #include "logger.h"
@@ -241,7 +242,7 @@ bool Uci::moves_command(std::istringstream& istream)
     return true;
 }
 
-void start_searching(Uci* uci)
+void start_searching(Uci* uci, Limits limits)
 {
     uint64_t key = PolyglotBook::hash(uci->position);
     if (uci->polyglot.contains(key))
@@ -249,7 +250,11 @@ void start_searching(Uci* uci)
         Move move = uci->polyglot_sample_random_move 
             ? uci->polyglot.get_random_move(key, uci->position)
             : uci->polyglot.get_best_move(key, uci->position);
-        if (move != NO_MOVE)
+        // a book move is played only if searchmoves allows it
+        const Move* first = limits.searchmoves;
+        const Move* last = limits.searchmoves + limits.searchmovesnum;
+        if (move != NO_MOVE && (limits.searchmovesnum == 0 ||
+                                std::find(first, last, move) != last))
         {
             sync_cout << "bestmove " << uci->position.uci(move) << sync_endl;
             return;
@@ -309,7 +314,7 @@ bool Uci::go_command(std::istringstream& istream)
 
     search = std::make_shared<Search>(position, limits, scorer, ttable);
 
-    std::thread search_thread(start_searching, this);
+    std::thread search_thread(start_searching, this, limits);
     search_thread.detach();
 
     return true;
